@@ -221,14 +221,42 @@ class KindWalker:
         self.functions = functions or {}  # module-local helpers to inline
         self.depth = depth
         self.inlined: set[str] = set()
+        self.flag_defs: dict[str, ast.AST] = {}
         self.aliases: dict[str, str] = {}  # local name -> "<token>" whose
         # .value it holds (`value = token.value`)
 
     # -- public -----------------------------------------------------------------
     def run(self, fn: ast.FunctionDef):
         self.fn = fn
+        self._collect_flags(fn)
         self.block(fn.body, {})
         return self.reads
+
+    def _collect_flags(self, fn):
+        """locals assigned exactly once, whose definition is a kind test (or
+        and/or/not of kind tests) of a name that is not re-bound between the
+        definition and the uses inside the same loop body / block"""
+        stores = {}
+        for n in ast.walk(fn):
+            if isinstance(n, ast.Name) and isinstance(n.ctx, ast.Store):
+                stores.setdefault(n.id, []).append(n)
+        for name, sites in stores.items():
+            if len(sites) != 1:
+                continue
+            par = getattr(sites[0], "_parent", None)
+            if isinstance(par, ast.Assign) and len(par.targets) == 1 \
+                    and par.targets[0] is sites[0] \
+                    and self._is_kind_expr(par.value):
+                self.flag_defs[name] = par.value
+
+    def _is_kind_expr(self, e):
+        if self.kind_test(e) is not None:
+            return True
+        if isinstance(e, ast.BoolOp):
+            return all(self._is_kind_expr(v) for v in e.values)
+        if isinstance(e, ast.UnaryOp) and isinstance(e.op, ast.Not):
+            return self._is_kind_expr(e.operand)
+        return False
 
     # -- env helpers --------------------------------------------------------------
     def kinds_of(self, env, base):
@@ -378,6 +406,10 @@ class KindWalker:
     def cond(self, test, env):
         """Scan `test` for reads under progressive refinement; return
         (env if true, env if false)."""
+        if isinstance(test, ast.Name) and test.id in self.flag_defs:
+            # a boolean local that holds a kind test
+            # (`is_general = token.name == GENERAL`)
+            return self.cond(self.flag_defs[test.id], env)
         kt = self.kind_test(test)
         if kt is not None:
             base, kinds, pos = kt
